@@ -5,6 +5,8 @@
 //! Output: `case <id>`, then `O <kind> <nrows> {<len> i...}* F <nf> f...`, then `end`.
 mod obs;
 mod hist;
+mod comp;
+mod cluster;
 use std::io::{BufRead, Write};
 
 fn main() {
@@ -37,6 +39,8 @@ fn main() {
                 let mut o = obs::Out::new();
                 match mode {
                     "hist" => hist::run_case(&cur, &mut o),
+                    "comp" => comp::run_case(&cur, &mut o),
+                    "cluster" => cluster::run_case(&cur, &mut o),
                     _ => {
                         eprintln!("unknown mode {}", mode);
                         std::process::exit(2);
